@@ -179,6 +179,9 @@ func init() {
 		"zzIte64": func(fr *frame, a []value) value {
 			return wrapTerm(types.Typ[types.Uint64], tIte(toTerm(a[0]), toTerm(a[1]), toTerm(a[2])))
 		},
+		"zzSleptNs": func(fr *frame, a []value) value {
+			return wrapTerm(types.Typ[types.Int64], fr.i.side.sleptTerm())
+		},
 		"zzParam": func(fr *frame, a []value) value {
 			if v, ok := engineParams[strArg(a[0])]; ok {
 				return v
